@@ -19,6 +19,7 @@ EXPLANATION = (
     "consuming parser on its spine, consuming rebinds only, an explicit cursor comparison, or a counter; a loop that rebinds its input from a parser that is "
     "provably able to succeed without consuming, with no progress test, is reported (it can spin forever); loops with neither proof are listed as unproven. "
     "Not decided: that reported ranges lie inside the input (values), super-linear time."
+    " (R6) nothing on the parse path iterates a std HashMap/HashSet (per-instance random order); (R7) a catch-all arm that panics on the result of a sub-parser is dead: the sub-parser can return no variant outside the arms' patterns (variant sets over the parser call graph)."
 )
 IMPURE = re.compile(r"^std::fs::|^std::env::|^std::net::|^std::process::|^std::time::|^rand::|^getrandom::|^std::thread::|^std::io::stdin|^std::os::|^tokio::|^reqwest::")
 
